@@ -72,7 +72,7 @@ fn write_num(fd: i32, mut n: u64) {
 extern "C" fn on_fatal_signal(sig: i32) {
     // async-signal-safe: report which run was executing, then die with the default action
     let what: &[u8] = match sig {
-        libc::SIGALRM => b"\nGSIM-HANG run=",
+        libc::SIGALRM | libc::SIGPROF => b"\nGSIM-HANG run=",
         _ => b"\nGSIM-ABORT run=",
     };
     unsafe {
@@ -87,7 +87,7 @@ extern "C" fn on_fatal_signal(sig: i32) {
     unsafe {
         libc::write(1, b"\n".as_ptr() as *const _, 1);
         libc::signal(sig, libc::SIG_DFL);
-        if sig == libc::SIGALRM {
+        if sig == libc::SIGALRM || sig == libc::SIGPROF {
             libc::_exit(3);
         }
         libc::raise(sig);
@@ -99,7 +99,7 @@ fn install_handlers() {
     unsafe {
         // SA_ONSTACK: std gives the main thread an alternate signal stack, so that a stack
         // overflow (e.g. unbounded recursion in a mutated insert) can still be reported
-        for &s in &[libc::SIGABRT, libc::SIGSEGV, libc::SIGBUS, libc::SIGILL, libc::SIGFPE, libc::SIGALRM] {
+        for &s in &[libc::SIGABRT, libc::SIGSEGV, libc::SIGBUS, libc::SIGILL, libc::SIGFPE, libc::SIGALRM, libc::SIGPROF] {
             let mut sa: libc::sigaction = std::mem::zeroed();
             sa.sa_sigaction = on_fatal_signal as usize;
             sa.sa_flags = libc::SA_ONSTACK;
@@ -109,6 +109,22 @@ fn install_handlers() {
     }
     std::panic::set_hook(Box::new(|_| {}));
 }
+
+/// The hang watchdog counts CPU time of this process (ITIMER_PROF), not wall-clock time, so a
+/// loaded machine cannot turn a slow run into a "hang": only a run that really burns `secs`
+/// seconds of CPU is reported.
+#[cfg(not(miri))]
+pub fn watchdog(secs: u32) {
+    unsafe {
+        let tv = libc::itimerval {
+            it_interval: libc::timeval { tv_sec: 0, tv_usec: 0 },
+            it_value: libc::timeval { tv_sec: secs as libc::time_t, tv_usec: 0 },
+        };
+        libc::setitimer(libc::ITIMER_PROF, &tv, std::ptr::null_mut());
+    }
+}
+#[cfg(miri)]
+pub fn watchdog(_secs: u32) {}
 
 pub fn run_seed(seed: u64, prop: Prop, run: u64) -> u64 {
     mix(&[seed, prop as u64, run])
@@ -228,10 +244,14 @@ fn cmd_run(args: &[String]) -> i32 {
         }
         let spec = generate(prop, seed, i, thorough);
         // the watchdog allows for the size of the schedule (giant growth runs, enumerations)
-        #[cfg(not(miri))]
-        unsafe {
-            let extra = (spec.ops.len() / 400) as u32 + if spec.mode.is_some() { 60 } else { 0 };
-            libc::alarm(hang_secs + extra);
+        {
+            // CPU-seconds allowed for this run, scaled to the size of the schedule; the
+            // crash-point and argument enumerations re-execute their prefix many times
+            let mut extra = (spec.ops.len() / 400) as u32 + if spec.mode.is_some() { 100 } else { 0 };
+            if matches!(prop, Prop::C07 | Prop::C10) {
+                extra += 100 + (spec.ops.len() as u32) / 2;
+            }
+            watchdog(hang_secs + extra);
         }
         let o = run_for_prop(prop, &spec, want_hash || hash_file.is_some());
         if want_hash || hash_file.is_some() {
@@ -306,10 +326,7 @@ fn cmd_run(args: &[String]) -> i32 {
         }
         i += stride;
     }
-    #[cfg(not(miri))]
-    unsafe {
-        libc::alarm(0);
-    }
+    watchdog(0);
     CURRENT_RUN.store(u64::MAX, Ordering::Relaxed);
     let result = serde_json::json!({
         "property": prop.name(), "seed": seed, "from": from, "count": count, "stride": stride, "offset": offset,
@@ -341,15 +358,9 @@ fn cmd_replay(args: &[String]) -> i32 {
     let verbose = args.iter().any(|a| a == "--transcript");
     THOROUGH.store(rf.tier == "thorough", Ordering::Relaxed);
     CURRENT_RUN.store(rf.run, Ordering::Relaxed);
-    #[cfg(not(miri))]
-    unsafe {
-        libc::alarm(20);
-    }
+    watchdog(if matches!(rf.property.as_str(), "C07" | "C10") || rf.spec.mode.is_some() { 300 } else { 30 + (rf.spec.ops.len() / 400) as u32 });
     let o = replay_outcome(&rf);
-    #[cfg(not(miri))]
-    unsafe {
-        libc::alarm(0);
-    }
+    watchdog(0);
     if verbose {
         for l in &o.transcript {
             println!("  {}", l);
